@@ -102,7 +102,7 @@ func (g *Gen) cellOfKind(kind string, wild bool, zoneOff int) Cell {
 	case "pstr":
 		return StrCell(plainStrs[g.r.Intn(len(plainStrs))])
 	case "nstr":
-		return StrCell([]string{"1", "2.5", "-3", "1e3", "0.125", "7", ".5", "+1", "-.25", "5.", "1E2", "0x10", "inf", "-Inf", "1_000", "+.5e1", "Infinity", "00.5"}[g.r.Intn(18)])
+		return StrCell([]string{"1", "2.5", "-3", "1e3", "0.125", "7", ".5", "+1", "-.25", "5.", "1E2", "0x10", "inf", "-Inf", "1_000", "+.5e1", "Infinity", "00.5", "0.1", "16777217", "1e100", "3.4028236e38", "1e-50", "0.30000000000000004"}[g.r.Intn(24)])
 	case "bool":
 		return BoolCell(g.chance(0.5))
 	case "time":
